@@ -63,6 +63,10 @@ static void run_mk(vrt::Exec& x)
                     a = vrt::sched_point(pop);
                 }
                 int op = menu[(size_t)a];
+                if (op <= 1 && digit > 7) {
+                    fprintf(stderr, "h_deferred: the program submits more than 7 modifications (digits are base 8)\n");
+                    _exit(5);
+                }
                 vrt::log_ev("call", names[(size_t)op], 0, op <= 1 ? digit : 0);
                 long r = 0;
                 auto rp = std::make_shared<long>(0);  // the functor may run later, in another thread
